@@ -310,8 +310,17 @@ G5Roots == {[ref |-> RemRef(FragNone)], [properties |-> [a |-> [ref |-> RemRef(F
             [items |-> [ref |-> RemRef(FragName("foo"))]], [ref |-> RemRef(FragName("foo"))],
             [allOf |-> <<[ref |-> RemRef(FragPtr(<<SegN("definitions", "x")>>))]>>],
             [definitions |-> [y |-> [ref |-> RemRef(FragNone)]], ref |-> LocalRef(PtrDefn("y"))]}
+\* two hops: the root refers to a.json (no $schema) which refers to r.json (no $schema): the draft is
+\* inherited transitively
+Rem2Hop == {[ref |-> RemRef(FragNone)], [properties |-> [a |-> [ref |-> RemRef(FragName("foo"))]]],
+            [items |-> [ref |-> RemRef(FragNone)]]}
+HopURI == URI("http", "h1", TRUE, <<"a.json">>)
+HopRef(f) == Ref(RelRef(<<"a.json">>), f)
 G5Docs(z) == {[docs |-> <<[uri |-> RootURI, s |-> r @@ [schema |-> v]], [uri |-> RemURI, s |-> m]>>] :
                  r \in G5Roots, v \in {D7http, D7https}, m \in G5Rem}
+             \cup {[docs |-> <<[uri |-> RootURI, s |-> r @@ [schema |-> v]], [uri |-> HopURI, s |-> h], [uri |-> RemURI, s |-> m]>>] :
+                 r \in {[ref |-> HopRef(FragNone)], [properties |-> [a |-> [ref |-> HopRef(FragNone)]]], [items |-> [ref |-> HopRef(FragNone)]]},
+                 v \in {D7http}, h \in Rem2Hop, m \in G5Rem0}
 Cases ==
   CASE Family = "F1" -> WithSchema(F1Schemas(0))
     [] Family = "F2" -> WithSchema(F2Schemas(0))
